@@ -147,6 +147,7 @@ Eval(e, st) ==
     [] e.k = "empty" -> EmptyV
     [] e.k = "blank" -> BlankV
     [] e.k = "int"   -> IntV(e.n)
+    [] e.k = "float" -> Dec(e.dm, e.de)              \* the number written: mantissa / 10^scale
     [] e.k = "str"   -> Lit(e.v, st)
     [] e.k = "var"   ->
          LET v == EvalPath(e.segs, 2, Resolve(e.segs[1].v, st), st) IN
